@@ -21,6 +21,12 @@ pub struct Ctx {
     bytes_index: HashMap<Vec<u8>, u32>,
     str_keys: Vec<String>,
     str_index: HashMap<Vec<u8>, u32>,
+    /// optional re-mapping used by the transition tours: abstract key i is corpus key key_sel[i]
+    /// (strictly increasing, so order is preserved), abstract value v is value id val_sel[v]
+    key_sel: Option<Vec<u32>>,
+    key_sel_inv: HashMap<u32, u32>,
+    val_sel: Option<Vec<u32>>,
+    val_sel_inv: HashMap<u32, u32>,
 }
 
 fn gen_bytes_corpus(rng: &mut StdRng, n: usize, page_size: usize) -> Vec<Vec<u8>> {
@@ -113,6 +119,43 @@ impl Ctx {
             bytes_index,
             str_keys,
             str_index,
+            key_sel: None,
+            key_sel_inv: HashMap::new(),
+            val_sel: None,
+            val_sel_inv: HashMap::new(),
+        }
+    }
+
+    pub fn with_selection(mut self, key_sel: Vec<u32>, val_sel: Vec<u32>) -> Ctx {
+        assert!(key_sel.windows(2).all(|w| w[0] < w[1]), "key selection must be increasing");
+        self.key_sel_inv = key_sel.iter().enumerate().map(|(i, k)| (*k, i as u32)).collect();
+        self.val_sel_inv = val_sel.iter().enumerate().map(|(i, v)| (*v, i as u32)).collect();
+        self.key_sel = Some(key_sel);
+        self.val_sel = Some(val_sel);
+        self
+    }
+
+    fn kmap(&self, i: u32) -> u32 {
+        match &self.key_sel {
+            Some(sel) => sel[i as usize],
+            None => i,
+        }
+    }
+
+    fn kunmap(&self, i: i64) -> i64 {
+        if self.key_sel.is_none() || i < 0 {
+            return i;
+        }
+        self.key_sel_inv.get(&(i as u32)).map_or(-1, |x| i64::from(*x))
+    }
+
+    /// corpus indices of the long keys (at least a quarter page) of a variable-width key type
+    pub fn long_keys(&self, kt: &str) -> Vec<u32> {
+        let q = self.page_size / 4;
+        match kt {
+            "bytes" => self.bytes_keys.iter().enumerate().filter(|(_, k)| k.len() >= q).map(|(i, _)| i as u32).collect(),
+            "str" => self.str_keys.iter().enumerate().filter(|(_, k)| k.len() >= q).map(|(i, _)| i as u32).collect(),
+            _ => vec![],
         }
     }
 
@@ -122,6 +165,7 @@ impl Ctx {
 
     /// Serialized form (as redb's `Value::as_bytes` produces it) of key `i` of type `kt`
     pub fn key_bytes(&self, kt: &str, i: u32) -> Vec<u8> {
+        let i = self.kmap(i);
         match kt {
             "u64" => (u64::from(i) * U64_STRIDE).to_le_bytes().to_vec(),
             "bytes" => self.bytes_keys[i as usize % self.bytes_keys.len()].clone(),
@@ -131,6 +175,10 @@ impl Ctx {
     }
 
     pub fn key_index(&self, kt: &str, bytes: &[u8]) -> i64 {
+        self.kunmap(self.key_index_raw(kt, bytes))
+    }
+
+    fn key_index_raw(&self, kt: &str, bytes: &[u8]) -> i64 {
         match kt {
             "u64" => {
                 if bytes.len() != 8 {
@@ -161,6 +209,14 @@ impl Ctx {
 
     /// Serialized form of value `v` of value type `vt`
     pub fn val_bytes(&self, vt: &str, v: u32) -> Vec<u8> {
+        let v = match (&self.val_sel, vt) {
+            (Some(sel), "bytes") => sel[v as usize],
+            _ => v,
+        };
+        self.val_bytes_raw(vt, v)
+    }
+
+    fn val_bytes_raw(&self, vt: &str, v: u32) -> Vec<u8> {
         match vt {
             "u64" => u64::from(v).to_le_bytes().to_vec(),
             "bytes" => {
@@ -183,6 +239,14 @@ impl Ctx {
     }
 
     pub fn val_index(&self, vt: &str, bytes: &[u8]) -> i64 {
+        let raw = self.val_index_raw(vt, bytes);
+        if self.val_sel.is_some() && vt == "bytes" && raw >= 0 {
+            return self.val_sel_inv.get(&(raw as u32)).map_or(-1, |x| i64::from(*x));
+        }
+        raw
+    }
+
+    fn val_index_raw(&self, vt: &str, bytes: &[u8]) -> i64 {
         match vt {
             "u64" => {
                 if bytes.len() != 8 {
@@ -203,7 +267,7 @@ impl Ctx {
                     return -1;
                 }
                 let v = class * VBASE + idx;
-                if self.val_bytes("bytes", v) == bytes { i64::from(v) } else { -1 }
+                if self.val_bytes_raw("bytes", v) == bytes { i64::from(v) } else { -1 }
             }
             _ => -1,
         }
